@@ -136,11 +136,14 @@ def build_and_run(job):
             kw.update(alpha=1.0 / L, accelerate=False)
     elif eff == "PrimalDualHybridGradient":
         kw.update(max_iter=6000)
-        if variant % 3 == 1:
+        # step sizes given or defaulted independently: none / sigma only / both / tau only (the library derives the other one)
+        if variant % 4 == 1:
             kw.update(sigma=0.5)
-        elif variant % 3 == 2:
+        elif variant % 4 == 2:
             nA = np.linalg.norm(np.vstack([A, Gm]) if G is not None else A, 2)
             kw.update(tau=0.9 / nA, sigma=0.9 / nA)
+        elif variant % 4 == 3:
+            kw.update(tau=0.7)
     elif eff == "ADMM":
         kw.update(max_iter=400, max_cg_iter=10, rho=[1.0, 0.5][variant % 2])
     if variant >= 2:
@@ -202,7 +205,7 @@ def run(ctx):
     nvar = 4 if ctx.thorough else 2
     for st in finals:
         o = st["opt"]
-        for v in range(nvar):
+        for v in range(4 if o["solver"] in ("PrimalDualHybridGradient", "None") else nvar):
             for cplx in ([False, True] if o["proxg"] in ("None", "l2") else [False]):
                 jobs.append({"opt": o, "variant": v + (2 if (v % 2 and ctx.seed % 2) else 0) * 0, "cplx": cplx, "seed": ctx.seed + v, "phase": st["phase"]})
         if st["phase"] == "ready":
